@@ -263,6 +263,8 @@ pub fn apply_layout_table<T: LayoutTable>(
                 ctx.digest = ctx.buffer.digest();
             }
         }
+        #[cfg(rb_verif)]
+        verif_hooks::digest_monitor(&ctx.digest, ctx.buffer);
     }
 }
 
@@ -760,6 +762,26 @@ pub fn _hb_clear_substitution_flags(
 #[allow(unused_imports, dead_code, missing_docs)]
 pub mod verif_hooks {
     use super::*;
+
+    static STALE_DIGEST_EVENTS: core::sync::atomic::AtomicUsize =
+        core::sync::atomic::AtomicUsize::new(0);
+
+    /// Monitor called by `apply_layout_table` after every stage (lookups + pause function): the
+    /// context digest must report every glyph that is in the buffer, otherwise later lookups are
+    /// skipped although they cover a glyph (the hypothesis `hinv` of C10_skip_lookup_sound).
+    pub fn digest_monitor(digest: &hb_set_digest_t, buffer: &hb_buffer_t) {
+        for info in &buffer.info[..buffer.len] {
+            if !digest.may_have_glyph(ttf_parser::GlyphId(info.glyph_id as u16)) {
+                STALE_DIGEST_EVENTS.fetch_add(1, core::sync::atomic::Ordering::SeqCst);
+                return;
+            }
+        }
+    }
+
+    /// Number of stages after which the monitor found a stale digest since the last call.
+    pub fn take_stale_digest_events() -> usize {
+        STALE_DIGEST_EVENTS.swap(0, core::sync::atomic::Ordering::SeqCst)
+    }
 
     /// Runs the GSUB part of a plan on an injected buffer (optionally after `substitute_start`).
     pub fn gsub_apply(
